@@ -359,6 +359,31 @@ Proof.
     rewrite IH by assumption. simpl. rewrite <- app_assoc. reflexivity.
 Qed.
 
+(* general form: a has no '\n'; a trailing '\r' is dropped *)
+Definition chomp_cr (a : str) : str :=
+  match rev a with x :: r => if (x =? 13)%N then rev r else a | [] => [] end.
+
+Lemma lines_aux_no10 a : forall cur b, Forall (fun c => c <> 10%N) a ->
+  lines_aux (a ++ 10%N :: b) cur =
+  match rev a ++ cur with
+  | x :: cur' => if (x =? 13)%N then rev cur' else rev (x :: cur')
+  | [] => []
+  end :: lines_aux b [].
+Proof.
+  induction a as [|c a IH]; intros cur b Ha; [destruct cur; reflexivity|].
+  inversion Ha as [|? ? H10 Ha']; subst. cbn [app lines_aux].
+  apply N.eqb_neq in H10. rewrite H10. rewrite IH by assumption.
+  cbn [rev]. rewrite <- app_assoc. reflexivity.
+Qed.
+
+Lemma lines_cons_no10 a b : Forall (fun c => c <> 10%N) a ->
+  lines (a ++ [10%N] ++ b) = chomp_cr a :: lines b.
+Proof.
+  intros Ha. unfold lines. cbn [app]. rewrite lines_aux_no10 by assumption.
+  rewrite app_nil_r. unfold chomp_cr. destruct (rev a) as [|x r] eqn:E; [reflexivity|].
+  destruct (x =? 13)%N; [reflexivity|]. rewrite <- E, rev_involutive. reflexivity.
+Qed.
+
 (* `lines` of `a ++ "\n" ++ b` when a has no line terminator *)
 Lemma lines_cons a b : Forall noeol a -> lines (a ++ [10%N] ++ b) = a :: lines b.
 Proof. intros Ha. unfold lines. simpl app. rewrite lines_aux_line by auto. reflexivity. Qed.
@@ -913,13 +938,13 @@ Qed.
 End FillWriter.
 
 
-Lemma nth_taxa_neq m i j : NoDup (mtaxa m) -> i < length (mtaxa m) -> j < length (mtaxa m) -> i <> j ->
+Lemma nth_taxa_neq (m : dmat) i j : NoDup (mtaxa m) -> i < length (mtaxa m) -> j < length (mtaxa m) -> i <> j ->
   nth i (mtaxa m) [] <> nth j (mtaxa m) [].
 Proof.
   intros Hnd Hi Hj E Hn. apply E. apply (proj1 (NoDup_nth (mtaxa m) []) Hnd); assumption.
 Qed.
 
-Lemma find_nth_taxa m i : NoDup (mtaxa m) -> i < length (mtaxa m) ->
+Lemma find_nth_taxa (m : dmat) i : NoDup (mtaxa m) -> i < length (mtaxa m) ->
   find_str (nth i (mtaxa m) []) (mtaxa m) = Some i.
 Proof. intros Hnd Hi. apply find_str_nodup; [assumption|]. apply nth_error_nth'. assumption. Qed.
 
@@ -1041,3 +1066,549 @@ Theorem rt_strict_square m txt : rt_pre m -> NoDup (mtaxa m) ->
 Proof. apply rt_strict_any. Qed.
 
 End RoundTrip.
+
+(* ================================================================================================ *)
+(* Part 4: what a successful strict read says about the text                                         *)
+(* ================================================================================================ *)
+
+Lemma nodup_app_intro {A} (l l' : list A) :
+  NoDup l -> NoDup l' -> (forall x, In x l -> ~ In x l') -> NoDup (l ++ l').
+Proof.
+  induction l as [|a l IH]; intros H H' Hd; [assumption|].
+  inversion H; subst. simpl. constructor.
+  - intros Hin. apply in_app_or in Hin. destruct Hin as [Hin|Hin]; [contradiction|].
+    apply (Hd a); [left; reflexivity|assumption].
+  - apply IH; try assumption. intros x Hx. apply Hd. right. assumption.
+Qed.
+
+Lemma nodup_app_l {A} (l l' : list A) : NoDup (l ++ l') -> NoDup l.
+Proof.
+  induction l as [|a l IH]; intros H; [constructor|].
+  simpl in H. inversion H; subst. constructor.
+  - intros Hin. apply H2. apply in_or_app. left. assumption.
+  - apply IH. assumption.
+Qed.
+
+Lemma nodup_snoc_fresh {A} (l : list A) x : NoDup (l ++ [x]) -> ~ In x l.
+Proof. intros H. apply NoDup_remove_2 in H. rewrite app_nil_r in H. assumption. Qed.
+
+Lemma nodup_map_inj {A B} (f : A -> B) l :
+  (forall x y, f x = f y -> x = y) -> NoDup l -> NoDup (map f l).
+Proof.
+  intros Hf. induction 1 as [|a l Ha Hl IH]; simpl; constructor; [|assumption].
+  intros Hin. apply in_map_iff in Hin. destruct Hin as (y & Hy & Hin). apply Hf in Hy. subst. contradiction.
+Qed.
+
+Lemma nodup_combine_fst {A B} (l : list A) : NoDup l -> forall (r : list B), NoDup (map fst (combine l r)).
+Proof.
+  induction 1 as [|a l Ha Hl IH]; intros r; [constructor|].
+  destruct r as [|b r]; [constructor|]. simpl. constructor; [|apply IH].
+  intros Hin. apply in_map_iff in Hin. destruct Hin as ([x y] & Hx & Hin). simpl in Hx. subst.
+  apply in_combine_l in Hin. contradiction.
+Qed.
+
+Lemma snoc_split2 {A} (pre : list A) t p1 t1 p2 t2 p3 :
+  pre ++ [t] = p1 ++ t1 :: p2 ++ t2 :: p3 ->
+  (p3 = [] /\ t2 = t /\ pre = p1 ++ t1 :: p2) \/
+  (exists p3', p3 = p3' ++ [t] /\ pre = p1 ++ t1 :: p2 ++ t2 :: p3').
+Proof.
+  intros E. assert (Hc : p3 = [] \/ exists p3' x, p3 = p3' ++ [x]).
+  { destruct p3 as [|y p3r]; [left; reflexivity|right].
+    destruct (@exists_last _ (y :: p3r)) as (p3' & x & E'); [discriminate|]. eauto. }
+  destruct Hc as [->|(p3' & x & ->)].
+  - left. replace (p1 ++ t1 :: p2 ++ [t2]) with ((p1 ++ t1 :: p2) ++ [t2]) in E
+      by (rewrite <- app_assoc; reflexivity).
+    apply app_inj_tail in E. destruct E as [-> ->]. auto.
+  - right. replace (p1 ++ t1 :: p2 ++ t2 :: p3' ++ [x]) with ((p1 ++ t1 :: p2 ++ t2 :: p3') ++ [x]) in E.
+    + apply app_inj_tail in E. destruct E as [-> ->]. eauto.
+    + rewrite <- app_assoc. simpl. rewrite <- app_assoc. reflexivity.
+Qed.
+
+Lemma combine_fst_snd {A B} (r : list (A * B)) : combine (map fst r) (map snd r) = r.
+Proof. induction r as [|[a b] r IH]; simpl; [reflexivity|]. f_equal. assumption. Qed.
+
+Lemma nth_error_combine {A B} (l : list A) (r : list B) : forall i a b,
+  nth_error l i = Some a -> nth_error r i = Some b -> nth_error (combine l r) i = Some (a, b).
+Proof.
+  revert r. induction l as [|x l IH]; intros r i a b Ha Hb; [destruct i; discriminate|].
+  destruct r as [|y r]; [destruct i; discriminate|].
+  destruct i as [|i]; simpl in *; [congruence|]. apply IH; assumption.
+Qed.
+
+Lemma nth_error_split2 {A} (l : list A) i j x y : i < j ->
+  nth_error l i = Some x -> nth_error l j = Some y ->
+  exists a b c, l = a ++ x :: b ++ y :: c.
+Proof.
+  intros Hij Hi Hj. apply nth_error_split in Hi. destruct Hi as (a & r & -> & Hlen).
+  rewrite nth_error_app2 in Hj by lia. rewrite Hlen in Hj.
+  destruct (j - i) as [|k] eqn:E; [lia|]. simpl in Hj.
+  apply nth_error_split in Hj. destruct Hj as (b & c & -> & _). eauto.
+Qed.
+
+Lemma foldM_pres {A S} (g : S -> A -> outcome S) (P : S -> Prop) :
+  (forall s x s', P s -> g s x = Ok s' -> P s') ->
+  forall l s s', P s -> foldM g l s = Ok s' -> P s'.
+Proof.
+  intros Hg. induction l as [|x l IH]; intros s s' Hs E; simpl in E.
+  - inversion E; subst. assumption.
+  - destruct (g s x) as [s1| | |] eqn:E1; simpl in E; try discriminate.
+    apply (IH s1); [eapply Hg; eauto|assumption].
+Qed.
+
+Lemma lift_m_ok {A} (o : outcome A) a : lift_m o = Ok a -> o = Ok a.
+Proof. destruct o; simpl; intros H; try discriminate. assumption. Qed.
+
+Section StrictOk.
+Context {L : Type}.
+Variable O : LenOps L.
+Variable parse_cell : str -> option L.
+Notation dmat := (@dmat L).
+Notation trip := (@trip L).
+
+Definition tkey (t : trip) : str * str := (fst (fst t), fst (snd t)).
+Definition tval (t : trip) : L := snd (snd t).
+
+Lemma tstep_frame st t st' : tstep O st t = Ok st' ->
+  msize (fst st') = msize (fst st) /\ mtaxa (fst st') = mtaxa (fst st).
+Proof.
+  destruct st as [mm seen], t as [[n1 row] [n2 d]]. unfold tstep, sstep. cbn [fst snd].
+  destruct (mem_pair n2 n1 seen).
+  - destruct (lift_m (dm_get O mm n1 n2)); simpl; try discriminate.
+    destruct (negb _); intros H; inversion H; subst. auto.
+  - destruct (dm_set O mm n1 n2 d) as [mm'| | |] eqn:E; simpl; try discriminate.
+    intros H; inversion H; subst. cbn [fst]. destruct (set_frame O _ _ _ _ _ E) as (E1 & E2 & _). auto.
+Qed.
+
+Lemma fill_frame names rows st st' : fill O names rows st = Ok st' ->
+  msize (fst st') = msize (fst st) /\ mtaxa (fst st') = mtaxa (fst st).
+Proof.
+  rewrite fill_trips. intros H.
+  apply (foldM_pres (tstep O)
+           (fun s => msize (fst s) = msize (fst st) /\ mtaxa (fst s) = mtaxa (fst st))) in H; auto.
+  intros s x s' [P1 P2] E. apply tstep_frame in E. destruct E as [E1 E2]. split; congruence.
+Qed.
+
+(* ---- keys of the fill sequence are pairwise distinct when the names are ---- *)
+Lemma trips_keys_nodup names (prs : list (str * list L)) :
+  NoDup names -> NoDup (map fst prs) ->
+  NoDup (map tkey (flat_map (fun p => map (pair p) (combine names (snd p))) prs)).
+Proof.
+  intros Hn. induction prs as [|p prs IH]; intros Hp; [constructor|].
+  simpl in Hp. inversion Hp as [|? ? Hfresh Hp']; subst.
+  cbn [flat_map]. rewrite map_app. apply nodup_app_intro.
+  - rewrite map_map. unfold tkey. cbn [fst snd].
+    rewrite <- (map_map fst (fun b => (fst p, b))).
+    apply nodup_map_inj; [intros x y E; congruence|]. apply nodup_combine_fst. assumption.
+  - apply IH. assumption.
+  - intros k Hk Hk'. apply in_map_iff in Hk. destruct Hk as (t & <- & Ht).
+    apply in_map_iff in Ht. destruct Ht as (q & <- & _).
+    apply in_map_iff in Hk'. destruct Hk' as (t' & Ek & Ht'). apply in_flat_map in Ht'.
+    destruct Ht' as (p' & Hp'in & Ht'). apply in_map_iff in Ht'. destruct Ht' as (q' & <- & _).
+    unfold tkey in Ek. cbn [fst snd] in Ek. apply Hfresh. apply in_map_iff. exists p'. split; [congruence|assumption].
+Qed.
+
+Lemma trips_of_keys_nodup names rows : NoDup names -> NoDup (map tkey (trips_of names rows)).
+Proof.
+  intros Hn. unfold trips_of. apply trips_keys_nodup; [assumption|]. apply nodup_combine_fst. assumption.
+Qed.
+
+(* ---- the inversion invariant of the fill loop ---- *)
+Definition Inv2 (pre : list trip) (st : dmat * list (str * str)) : Prop :=
+  (forall a b, mem_pair a b (snd st) = true -> exists t, In t pre /\ tkey t = (a, b)) /\
+  (forall t, In t pre -> mem_pair (fst (tkey t)) (snd (tkey t)) (snd st) = true \/
+                         mem_pair (snd (tkey t)) (fst (tkey t)) (snd st) = true) /\
+  (forall a b t, mem_pair a b (snd st) = true -> a <> b -> In t pre -> tkey t = (a, b) ->
+                 dm_get O (fst st) a b = Ok (tval t)) /\
+  (forall p1 t1 p2 t2 p3, pre = p1 ++ t1 :: p2 ++ t2 :: p3 ->
+     tkey t2 = (snd (tkey t1), fst (tkey t1)) -> fst (tkey t1) <> snd (tkey t1) ->
+     leqb O (tval t1) (tval t2) = true).
+
+Lemma mem_pair_cons_true a b x y l : mem_pair a b ((x, y) :: l) = true ->
+  (a, b) = (x, y) \/ mem_pair a b l = true.
+Proof.
+  rewrite mem_pair_cons. intros H. apply orb_true_iff in H. destruct H as [H|H]; [left|right; assumption].
+  apply andb_true_iff in H. destruct H as [Ha Hb]. apply str_eqb_eq in Ha, Hb. congruence.
+Qed.
+
+Lemma mem_pair_cons_mono a b p l : mem_pair a b l = true -> mem_pair a b (p :: l) = true.
+Proof. intros H. unfold mem_pair in *. simpl. rewrite H. apply orb_true_r. Qed.
+
+Lemma mem_pair_cons_hd a b l : mem_pair a b ((a, b) :: l) = true.
+Proof. rewrite mem_pair_cons, !str_eqb_refl. reflexivity. Qed.
+
+Lemma Inv2_step pre t st st' : NoDup (map tkey (pre ++ [t])) ->
+  Inv2 pre st -> tstep O st t = Ok st' -> Inv2 (pre ++ [t]) st'.
+Proof.
+  intros Hnd (B1 & B2 & HC & HS) Hstep.
+  assert (Hfresh : forall t', In t' pre -> tkey t' = tkey t -> False).
+  { intros t' Hin Ek. rewrite map_app in Hnd. apply nodup_snoc_fresh in Hnd. apply Hnd.
+    rewrite <- Ek. apply in_map. assumption. }
+  destruct st as [mm seen], t as [[n1 row] [n2 d]]. unfold tstep, sstep in Hstep. cbn [fst snd] in *.
+  change (tkey (n1, row, (n2, d))) with (n1, n2) in Hfresh.
+  destruct (mem_pair n2 n1 seen) eqn:Em.
+  - (* the symmetric cell is known: compare *)
+    destruct (lift_m (dm_get O mm n1 n2)) as [known| | |] eqn:Eg; simpl in Hstep; try discriminate.
+    apply lift_m_ok in Eg.
+    destruct (leqb O known d) eqn:El; simpl in Hstep; [|discriminate].
+    inversion Hstep; subst st'. clear Hstep. cbn [fst snd]. repeat split.
+    + intros a b H. destruct (B1 a b H) as (t & Ht & Ek). exists t. split; [apply in_or_app; auto|assumption].
+    + intros t Ht. apply in_app_or in Ht. destruct Ht as [Ht|[<-|[]]]; [auto|]. right. assumption.
+    + intros a b t H Hab Ht Ek. apply in_app_or in Ht. destruct Ht as [Ht|[<-|[]]]; [eauto|].
+      exfalso. change (tkey (n1, row, (n2, d))) with (n1, n2) in Ek. inversion Ek; subst.
+      destruct (B1 _ _ H) as (t' & Ht' & Ek'). eauto.
+    + intros p1 t1 p2 t2 p3 E Ek Hne. apply snoc_split2 in E.
+      destruct E as [(-> & -> & ->)|(p3' & -> & ->)]; [|eapply HS; eauto].
+      change (tkey (n1, row, (n2, d))) with (n1, n2) in Ek. change (tval (n1, row, (n2, d))) with d.
+      assert (Hin1 : In t1 (p1 ++ t1 :: p2)) by (apply in_or_app; right; left; reflexivity).
+      destruct (tkey t1) as [x y] eqn:Ek1. cbn [fst snd] in *. inversion Ek; subst x y.
+      assert (Eg1 : dm_get O mm n2 n1 = Ok (tval t1)).
+      { apply HC; try assumption. }
+      rewrite get_sym in Eg1. rewrite Eg1 in Eg. inversion Eg; subst. assumption.
+  - (* first occurrence: store *)
+    destruct (dm_set O mm n1 n2 d) as [mm'| | |] eqn:Es; simpl in Hstep; try discriminate.
+    inversion Hstep; subst st'. clear Hstep. cbn [fst snd]. repeat split.
+    + intros a b H. apply mem_pair_cons_true in H. destruct H as [H|H].
+      * inversion H; subst. exists (n1, row, (n2, d)). split; [apply in_or_app; right; left; reflexivity|reflexivity].
+      * destruct (B1 a b H) as (t & Ht & Ek). exists t. split; [apply in_or_app; auto|assumption].
+    + intros t Ht. apply in_app_or in Ht. destruct Ht as [Ht|[<-|[]]].
+      * destruct (B2 t Ht); [left|right]; apply mem_pair_cons_mono; assumption.
+      * left. apply mem_pair_cons_hd.
+    + intros a b t H Hab Ht Ek. apply in_app_or in Ht. destruct Ht as [Ht|[<-|[]]].
+      * apply mem_pair_cons_true in H. destruct H as [H|H].
+        -- exfalso. inversion H; subst. eauto.
+        -- rewrite <- (HC a b t H Hab Ht Ek). apply (get_set_other O) with (3 := Es).
+           ++ intros E. inversion E; subst. eauto.
+           ++ intros E. inversion E; subst. congruence.
+      * change (tkey (n1, row, (n2, d))) with (n1, n2) in Ek. inversion Ek; subst.
+        apply (get_set_same O _ _ _ _ _ Hab Es).
+    + intros p1 t1 p2 t2 p3 E Ek Hne. apply snoc_split2 in E.
+      destruct E as [(-> & -> & ->)|(p3' & -> & ->)]; [|eapply HS; eauto].
+      exfalso. change (tkey (n1, row, (n2, d))) with (n1, n2) in Ek.
+      assert (Hin1 : In t1 (p1 ++ t1 :: p2)) by (apply in_or_app; right; left; reflexivity).
+      destruct (tkey t1) as [x y] eqn:Ek1. cbn [fst snd] in *. inversion Ek; subst x y.
+      destruct (B2 t1 Hin1) as [H|H]; rewrite Ek1 in H; cbn [fst snd] in H; [congruence|].
+      destruct (B1 _ _ H) as (t' & Ht' & Ek'). eauto.
+Qed.
+
+Lemma Inv2_run names rows st st' : NoDup names ->
+  (forall a b, mem_pair a b (snd st) = false) ->
+  foldM (tstep O) (trips_of names rows) st = Ok st' -> Inv2 (trips_of names rows) st'.
+Proof.
+  intros Hn Hseen H.
+  apply (foldM_prefix_inv (tstep O) Inv2 (trips_of names rows) [] st st'); [| |assumption].
+  - intros p x q s s' E Hi Hs. apply (Inv2_step p x s s'); try assumption.
+    pose proof (trips_of_keys_nodup names rows Hn) as Hnd. simpl in E. rewrite E in Hnd.
+    replace (p ++ x :: q) with ((p ++ [x]) ++ q) in Hnd by (rewrite <- app_assoc; reflexivity).
+    rewrite map_app in Hnd. apply nodup_app_l in Hnd. assumption.
+  - unfold Inv2. repeat split.
+    + intros a b H0. rewrite Hseen in H0. discriminate.
+    + intros t [].
+    + intros a b t H0. rewrite Hseen in H0. discriminate.
+    + intros p1 t1 p2 t2 p3 E. destruct p1; discriminate.
+Qed.
+
+
+(* two fill steps in row-major order *)
+Lemma trips_split names (rows : list (list L)) i j ni di nj dj vj vi : i < j ->
+  nth_error (combine names rows) i = Some (ni, di) ->
+  nth_error (combine names rows) j = Some (nj, dj) ->
+  In (nj, vj) (combine names di) -> In (ni, vi) (combine names dj) ->
+  exists p1 p2 p3,
+    trips_of names rows = p1 ++ ((ni, di), (nj, vj)) :: p2 ++ ((nj, dj), (ni, vi)) :: p3.
+Proof.
+  intros Hij Hi Hj Hin1 Hin2.
+  destruct (nth_error_split2 _ _ _ _ _ Hij Hi Hj) as (a & b & c & E).
+  apply in_split in Hin1. destruct Hin1 as (x1 & y1 & E1).
+  apply in_split in Hin2. destruct Hin2 as (x2 & y2 & E2).
+  unfold trips_of. rewrite E. rewrite flat_map_app. cbn [flat_map]. rewrite flat_map_app. cbn [flat_map snd].
+  rewrite E1, E2. rewrite !map_app. cbn [map].
+  set (F := flat_map (fun p : str * list L => map (pair p) (combine names (snd p)))).
+  exists (F a ++ map (pair (ni, di)) x1), (map (pair (ni, di)) y1 ++ F b ++ map (pair (nj, dj)) x2),
+         (map (pair (nj, dj)) y2 ++ F c).
+  rewrite <- !app_assoc. cbn [app]. rewrite <- ?app_assoc. reflexivity.
+Qed.
+
+Lemma strict_row_inv sq size p y : strict_row O parse_cell sq size p = Ok y ->
+  read_phylip_row parse_cell (snd p) (fst p) false = Ok y /\
+  length (snd y) = (if sq then size else fst p) /\
+  (sq = true -> fst p < size /\ leqb O (nth (fst p) (snd y) (l0 O)) (l0 O) = true).
+Proof.
+  unfold strict_row.
+  destruct (read_phylip_row parse_cell (snd p) (fst p) false) as [[name ds]| | |]; simpl; try discriminate.
+  destruct sq; simpl.
+  - destruct (Nat.eqb (length ds) size) eqn:E1; simpl; try discriminate.
+    destruct (Nat.leb size (fst p)) eqn:E2; simpl; try discriminate.
+    destruct (leqb O (nth (fst p) ds (l0 O)) (l0 O)) eqn:E3; simpl; try discriminate.
+    intros H; inversion H; subst. simpl. split; [reflexivity|]. split; [apply Nat.eqb_eq; assumption|].
+    intros _. split; [apply Nat.leb_gt; assumption|assumption].
+  - destruct (Nat.eqb (length ds) (fst p)) eqn:E1; simpl; try discriminate.
+    intros H; inversion H; subst. simpl. split; [reflexivity|]. split; [apply Nat.eqb_eq; assumption|].
+    discriminate.
+Qed.
+
+Lemma strict_ok_core text sq m first rest :
+  from_phylip_strict O parse_cell text sq = Ok m -> lines text = first :: rest ->
+  exists size r st,
+    parse_usize first = Some size /\ length rest = size /\ length r = size /\
+    (forall i line, nth_error rest i = Some line ->
+       exists y, nth_error r i = Some y /\ strict_row O parse_cell sq size (i, line) = Ok y) /\
+    fill O (map fst r) (map snd r)
+         (mkDmat size (map fst r) (repeat (l0 O) (size * (size - 1) / 2)), []) = Ok st /\
+    m = fst st /\ msize m = size /\ mtaxa m = map fst r.
+Proof.
+  intros H Hl. rewrite strict_unfold, Hl in H.
+  destruct (parse_usize first) as [size|]; [|discriminate].
+  destruct (mapM (strict_row O parse_cell sq size) (combine (seq 0 (length rest)) rest)) as [r| | |] eqn:Er;
+    simpl in H; try discriminate.
+  destruct (Nat.eqb (length (map fst r)) size) eqn:El; simpl in H; [|discriminate].
+  unfold dm_set_taxa, dm_with_size in H. cbn [msize mcells] in H. rewrite El in H. cbn [lift_m bind] in H.
+  destruct (fill O (map fst r) (map snd r) _) as [st| | |] eqn:Ef; simpl in H; try discriminate.
+  inversion H; subst m. clear H.
+  apply Nat.eqb_eq in El. rewrite map_length in El.
+  pose proof (mapM_length _ _ _ Er) as Hlen. rewrite combine_length, seq_length, Nat.min_id in Hlen.
+  destruct (fill_frame _ _ _ _ Ef) as [Fm Ft]. cbn [fst msize mtaxa] in Fm, Ft.
+  exists size, r, st. repeat split; try assumption; try congruence.
+  intros i line Hi. apply (mapM_nth _ _ _ Er).
+  rewrite nth_error_combine_seq, Hi. reflexivity.
+Qed.
+
+(* the number of data lines equals the declared size *)
+Theorem strict_ok_rows text sq m : from_phylip_strict O parse_cell text sq = Ok m ->
+  exists first rest size, lines text = first :: rest /\ parse_usize first = Some size /\
+    length rest = size /\ msize m = size /\ length (mtaxa m) = size.
+Proof.
+  intros H. destruct (lines text) as [|first rest] eqn:Hl.
+  - rewrite strict_unfold, Hl in H. discriminate.
+  - destruct (strict_ok_core _ _ _ _ _ H Hl) as (size & r & st & Hp & Hr & Hlr & _ & _ & _ & Hm & Ht).
+    exists first, rest, size. repeat split; try assumption. rewrite Ht, map_length. assumption.
+Qed.
+
+(* every data line parses; square rows have exactly `size` cells, triangular row i has exactly i cells;
+   the names are the taxa of the result *)
+Theorem strict_ok_shape text sq m first rest :
+  from_phylip_strict O parse_cell text sq = Ok m -> lines text = first :: rest ->
+  forall i line, nth_error rest i = Some line ->
+  exists name ds, read_phylip_row parse_cell line i false = Ok (name, ds) /\
+                  nth_error (mtaxa m) i = Some name /\
+                  length ds = (if sq then msize m else i).
+Proof.
+  intros H Hl i line Hi.
+  destruct (strict_ok_core _ _ _ _ _ H Hl) as (size & r & st & Hp & Hr & Hlr & Hrow & _ & _ & Hm & Ht).
+  destruct (Hrow i line Hi) as ([name ds] & Hy & Hs). apply strict_row_inv in Hs.
+  destruct Hs as (Hread & Hlen & _). cbn [fst snd] in *.
+  exists name, ds. repeat split; [assumption| |rewrite Hm; assumption].
+  rewrite Ht, nth_error_map, Hy. reflexivity.
+Qed.
+
+(* square form: every diagonal cell compares equal to zero *)
+Theorem strict_ok_diag text m first rest :
+  from_phylip_strict O parse_cell text true = Ok m -> lines text = first :: rest ->
+  forall i line name ds, nth_error rest i = Some line ->
+    read_phylip_row parse_cell line i false = Ok (name, ds) ->
+    leqb O (nth i ds (l0 O)) (l0 O) = true.
+Proof.
+  intros H Hl i line name ds Hi Hread.
+  destruct (strict_ok_core _ _ _ _ _ H Hl) as (size & r & st & Hp & Hr & Hlr & Hrow & _).
+  destruct (Hrow i line Hi) as (y & Hy & Hs). apply strict_row_inv in Hs.
+  destruct Hs as (Hread' & _ & Hd). cbn [fst snd] in *. rewrite Hread in Hread'. inversion Hread'; subst y.
+  apply Hd. reflexivity.
+Qed.
+
+(* square form with pairwise distinct names: cell (i,j) compares equal to cell (j,i) *)
+Theorem strict_ok_sym text m first rest :
+  from_phylip_strict O parse_cell text true = Ok m -> lines text = first :: rest ->
+  NoDup (mtaxa m) ->
+  forall i j li lj ni nj di dj, i < j ->
+    nth_error rest i = Some li -> nth_error rest j = Some lj ->
+    read_phylip_row parse_cell li i false = Ok (ni, di) ->
+    read_phylip_row parse_cell lj j false = Ok (nj, dj) ->
+    leqb O (nth j di (l0 O)) (nth i dj (l0 O)) = true.
+Proof.
+  intros H Hl Hnd i j li lj ni nj di dj Hij Hi Hj Hri Hrj.
+  destruct (strict_ok_core _ _ _ _ _ H Hl) as (size & r & st & Hp & Hr & Hlr & Hrow & Hf & _ & _ & Ht).
+  destruct (Hrow i li Hi) as (yi & Hyi & Hsi). apply strict_row_inv in Hsi.
+  destruct (Hrow j lj Hj) as (yj & Hyj & Hsj). apply strict_row_inv in Hsj.
+  destruct Hsi as (Hri' & Hli & _). destruct Hsj as (Hrj' & Hlj & _). cbn [fst snd] in *.
+  rewrite Hri in Hri'. rewrite Hrj in Hrj'. inversion Hri'; subst yi. inversion Hrj'; subst yj.
+  cbn [fst snd] in *. clear Hri' Hrj'.
+  assert (Hjs : j < size) by (rewrite <- Hlr; apply nth_error_Some; congruence).
+  rewrite Ht in Hnd. set (names := map fst r) in *. set (rows := map snd r) in *.
+  assert (Hni : nth_error names i = Some ni) by (unfold names; rewrite nth_error_map, Hyi; reflexivity).
+  assert (Hnj : nth_error names j = Some nj) by (unfold names; rewrite nth_error_map, Hyj; reflexivity).
+  assert (Hne : ni <> nj).
+  { intros ->. assert (i = j); [|lia].
+    apply (proj1 (NoDup_nth_error names) Hnd); [|congruence].
+    apply nth_error_Some. congruence. }
+  rewrite fill_trips in Hf.
+  apply (Inv2_run names rows) in Hf; [|assumption|reflexivity].
+  destruct Hf as (_ & _ & _ & HS).
+  destruct (trips_split names rows i j ni di nj dj (nth j di (l0 O)) (nth i dj (l0 O)) Hij)
+    as (p1 & p2 & p3 & E).
+  - unfold names, rows. rewrite combine_fst_snd. assumption.
+  - unfold names, rows. rewrite combine_fst_snd. assumption.
+  - eapply nth_error_In. apply nth_error_combine; [exact Hnj|]. apply nth_error_nth'. lia.
+  - eapply nth_error_In. apply nth_error_combine; [exact Hni|]. apply nth_error_nth'. lia.
+  - apply (HS _ _ _ _ _ E); [reflexivity|assumption].
+Qed.
+
+
+(* ---- the same facts as rejections ---- *)
+Lemma strict_ok_or_err text sq :
+  (exists m, from_phylip_strict O parse_cell text sq = Ok m) \/
+  (exists e, from_phylip_strict O parse_cell text sq = Err e).
+Proof.
+  pose proof (strict_no_panic O parse_cell text sq) as H.
+  destruct (from_phylip_strict O parse_cell text sq); eauto; contradiction.
+Qed.
+
+Definition row_name (line : str) : str := hd [] (split_ws line).
+
+Lemma read_row_name line i t name (ds : list L) :
+  read_phylip_row parse_cell line i t = Ok (name, ds) -> row_name line = name.
+Proof.
+  unfold read_phylip_row, row_name. destruct (split_ws line) as [|nm fs]; [discriminate|].
+  destruct (parse_cells parse_cell fs _); simpl; try discriminate. intros H; inversion H; reflexivity.
+Qed.
+
+(* the taxa of the result are the first fields of the data lines *)
+Theorem strict_ok_taxa text sq m first rest :
+  from_phylip_strict O parse_cell text sq = Ok m -> lines text = first :: rest ->
+  mtaxa m = map row_name rest.
+Proof.
+  intros H Hl. apply nth_error_ext_eq. intros i. rewrite nth_error_map.
+  destruct (nth_error rest i) as [line|] eqn:E.
+  - destruct (strict_ok_shape _ _ _ _ _ H Hl i line E) as (name & ds & Hr & Hn & _).
+    rewrite Hn. simpl. f_equal. symmetry. eapply read_row_name; eassumption.
+  - simpl. apply nth_error_None. apply nth_error_None in E.
+    destruct (strict_ok_core _ _ _ _ _ H Hl) as (size & r & st & _ & Hr & Hlr & _ & _ & _ & _ & Ht).
+    rewrite Ht, map_length. lia.
+Qed.
+
+Theorem strict_rejects text (sq : bool) first rest size :
+  lines text = first :: rest -> parse_usize first = Some size ->
+  ( (* row count differs from the declared size *)
+    length rest <> size
+    \/ (* a row of the wrong length *)
+    (exists i line name ds, nth_error rest i = Some line /\
+       read_phylip_row parse_cell line i false = Ok (name, ds) /\
+       length ds <> (if sq then size else i))
+    \/ (* a non-zero diagonal cell *)
+    (sq = true /\ exists i line name ds, nth_error rest i = Some line /\
+       read_phylip_row parse_cell line i false = Ok (name, ds) /\
+       leqb O (nth i ds (l0 O)) (l0 O) = false)
+    \/ (* an asymmetric pair *)
+    (sq = true /\ NoDup (map row_name rest) /\
+     exists i j li lj ni nj di dj, i < j /\
+       nth_error rest i = Some li /\ nth_error rest j = Some lj /\
+       read_phylip_row parse_cell li i false = Ok (ni, di) /\
+       read_phylip_row parse_cell lj j false = Ok (nj, dj) /\
+       leqb O (nth j di (l0 O)) (nth i dj (l0 O)) = false) ) ->
+  exists e, from_phylip_strict O parse_cell text sq = Err e.
+Proof.
+  intros Hl Hp Hbad. destruct (strict_ok_or_err text sq) as [[m Hm]|He]; [exfalso|assumption].
+  destruct (strict_ok_rows _ _ _ Hm) as (first' & rest' & size' & Hl' & Hp' & Hlen & Hms & _).
+  assert (E1 : first' = first) by congruence. assert (E2 : rest' = rest) by congruence.
+  subst first' rest'. assert (E3 : size' = size) by congruence. subst size'.
+  destruct Hbad as [Hbad|[Hbad|[Hbad|Hbad]]].
+  - contradiction.
+  - destruct Hbad as (i & line & name & ds & Hi & Hr & Hne).
+    destruct (strict_ok_shape _ _ _ _ _ Hm Hl i line Hi) as (name' & ds' & Hr' & _ & Hlen').
+    rewrite Hr in Hr'. inversion Hr'; subst. rewrite Hms in Hlen'. contradiction.
+  - destruct Hbad as (-> & i & line & name & ds & Hi & Hr & Hne).
+    rewrite (strict_ok_diag _ _ _ _ Hm Hl i line name ds Hi Hr) in Hne. discriminate.
+  - destruct Hbad as (-> & Hnd & i & j & li & lj & ni & nj & di & dj & Hij & Hi & Hj & Hri & Hrj & Hne).
+    rewrite <- (strict_ok_taxa _ _ _ _ _ Hm Hl) in Hnd.
+    rewrite (strict_ok_sym _ _ _ _ Hm Hl Hnd i j li lj ni nj di dj Hij Hi Hj Hri Hrj) in Hne. discriminate.
+Qed.
+
+End StrictOk.
+
+(* ================================================================================================ *)
+(* C14, closed statements                                                                            *)
+(* ================================================================================================ *)
+
+(* Round trip: writing a well-formed matrix (whitespace-free non-empty names, admissible cells) in
+   either Phylip form and reading it back with either reader reproduces the matrix exactly. *)
+Theorem C14_round_trip {L : Type} (O : LenOps L)
+    (print_cell : L -> str) (parse_cell : str -> option L) (ok_cell : L -> Prop) :
+  (forall l, ok_cell l -> parse_cell (print_cell l) = Some l) ->
+  (forall l, print_cell l <> [] /\ Forall (fun c => is_ws c = false) (print_cell l)) ->
+  ok_cell (l0 O) ->
+  (forall a b, ok_cell a -> ok_cell b -> (leqb O a b = true <-> a = b)) ->
+  forall (m : @dmat L) (sq : bool) (txt : @rstr L),
+    msize m = length (mtaxa m) ->
+    length (mcells m) = msize m * (msize m - 1) / 2 ->
+    1 <= msize m ->
+    Forall (fun s : str => s <> [] /\ Forall (fun c => is_ws c = false) s) (mtaxa m) ->
+    Forall ok_cell (mcells m) ->
+    (N.of_nat (msize m) < 2 ^ 64)%N ->
+    to_phylip O m sq = Ok txt ->
+    from_phylip_tril parse_cell (flatten print_cell txt) = Ok m /\
+    (NoDup (mtaxa m) -> from_phylip_strict O parse_cell (flatten print_cell txt) sq = Ok m).
+Proof.
+  intros H1 H2 Hz Heq m sq txt Hs Hc Hn Hnames Hcells Hb Hw.
+  assert (Hpre : rt_pre ok_cell m).
+  { unfold rt_pre, wf_m. repeat split; assumption. }
+  split.
+  - eapply rt_tril_any; eassumption.
+  - intros Hnd. eapply rt_strict_any; eassumption.
+Qed.
+
+(* Totality of both readers. *)
+Theorem C14_no_panic {L : Type} (O : LenOps L) (parse_cell : str -> option L) (text : str) :
+  match from_phylip_tril parse_cell text with Panic _ | OutOfFuel => False | _ => True end /\
+  forall sq, match from_phylip_strict O parse_cell text sq with Panic _ | OutOfFuel => False | _ => True end.
+Proof. split; [apply tril_no_panic|intros sq; apply strict_no_panic]. Qed.
+
+(* The cell hypotheses are satisfiable: unsigned integer cells printed in decimal and parsed by
+   usize::from_str (so the round-trip theorem is not vacuous). *)
+Definition nat_ops : LenOps nat :=
+  {| l0 := 0; l1 := 1; ladd := Nat.add; lsub := Nat.sub; lmul := Nat.mul; ldiv := Nat.div;
+     labs := fun x => x; lltb := Nat.ltb; leqb := Nat.eqb; lofnat := fun n => n; linf := 0 |}.
+
+Lemma isdig_nows c : isdig c -> is_ws c = false.
+Proof.
+  unfold isdig. intros [Hlo Hhi].
+  assert (H : (c = 48 \/ c = 49 \/ c = 50 \/ c = 51 \/ c = 52 \/ c = 53 \/ c = 54 \/ c = 55 \/
+               c = 56 \/ c = 57)%N) by lia.
+  repeat (destruct H as [->|H]; [reflexivity|]). subst. reflexivity.
+Qed.
+
+Theorem C14_round_trip_nat (m : @dmat nat) (sq : bool) (txt : @rstr nat) :
+  msize m = length (mtaxa m) ->
+  length (mcells m) = msize m * (msize m - 1) / 2 ->
+  1 <= msize m ->
+  Forall (fun s : str => s <> [] /\ Forall (fun c => is_ws c = false) s) (mtaxa m) ->
+  Forall (fun n => (N.of_nat n < 2 ^ 64)%N) (mcells m) ->
+  (N.of_nat (msize m) < 2 ^ 64)%N ->
+  to_phylip nat_ops m sq = Ok txt ->
+  from_phylip_tril parse_usize (flatten dec_of_nat txt) = Ok m /\
+  (NoDup (mtaxa m) -> from_phylip_strict nat_ops parse_usize (flatten dec_of_nat txt) sq = Ok m).
+Proof.
+  apply (C14_round_trip nat_ops dec_of_nat parse_usize (fun n => (N.of_nat n < 2 ^ 64)%N)).
+  - intros n Hn. apply parse_usize_dec. assumption.
+  - intros n. split.
+    + destruct (dec_of_nat_cons n) as (c & r & E & _). rewrite E. discriminate.
+    + eapply Forall_impl; [|apply dec_of_nat_isdig]. apply isdig_nows.
+  - reflexivity.
+  - intros a b _ _. apply Nat.eqb_eq.
+Qed.
+
+Print Assumptions tril_no_panic.
+Print Assumptions strict_no_panic.
+Print Assumptions lines_cons.
+Print Assumptions parse_usize_dec.
+Print Assumptions split_ws_row.
+Print Assumptions rt_tril_tril.
+Print Assumptions rt_tril_square.
+Print Assumptions rt_strict_tril.
+Print Assumptions rt_strict_square.
+Print Assumptions strict_ok_rows.
+Print Assumptions strict_ok_shape.
+Print Assumptions strict_ok_diag.
+Print Assumptions strict_ok_sym.
+Print Assumptions strict_ok_taxa.
+Print Assumptions strict_rejects.
+Print Assumptions C14_round_trip.
+Print Assumptions C14_no_panic.
+Print Assumptions C14_round_trip_nat.
